@@ -193,6 +193,8 @@ def compare(case, impl, model):
         if i is not None:
             ds.append(f"eigenvalues (l/n) differ at {i}: {impl['vals'][:6]} vs {[float(x) for x in lam][:6]}")
         phi = np.asarray(impl["phi"], dtype=float)
+        Xf = np.array(fl(Fm(case["X"])))
+        Xc_abs = np.abs(Xf - Xf.mean(axis=0))
         if len(rows) != len(phi):
             ds.append(f"{len(phi)} eigenfunctions vs model {len(rows)}")
         else:
@@ -202,7 +204,11 @@ def compare(case, impl, model):
                         ds.append(f"eigenfunction {k}: model divides by √0, implementation returns finite values")
                 else:
                     q = pvec(row)
-                    scale = max([abs(float(x)) for x in q] + [1e-300])
+                    # scale = Σ|terms| of the combination Xcᵀ v_k / √l_k (a null-space vector of a noise-free Gram
+                    # matrix gives pure cancellation: both sides are rounding noise of that size)
+                    lk = max(impl["vals"][k] * len(Xc_abs), 1e-300)
+                    terms = float((Xc_abs.T @ np.abs(np.asarray(impl["V"], dtype=float).reshape(len(Xc_abs), -1)[:, k])).max() / np.sqrt(lk))
+                    scale = max([abs(float(x)) for x in q] + [terms, 1e-300])
                     j = close_all(pr.tolist(), q, scale, RTOL)
                     if j is not None:
                         ds.append(f"eigenfunction {k}[{j}]: impl {pr[j]!r} vs exact {float(q[j])!r}")
